@@ -151,6 +151,21 @@ func (k *Key) WithNonce(n int, tag string) *Key {
 	return &c
 }
 
+// Negated returns the EC key whose point is the inverse of k's: the same x coordinate, y' = p - y, private scalar
+// n - d. It is the one other key that agrees with k in every JWK member but "y". For Ed25519 it returns nil.
+func (k *Key) Negated() *Key {
+	if k.Type == Ed25519 {
+		return nil
+	}
+	c := *k
+	params := k.Type.Curve().Params()
+	c.d = new(big.Int).Sub(params.N, k.d)
+	c.x = new(big.Int).Set(k.x)
+	c.y = new(big.Int).Sub(params.P, k.y)
+	c.Pool = k.Pool + "~neg"
+	return &c
+}
+
 // ID names the key in samples and replay files.
 func (k *Key) ID() string { return fmt.Sprintf("%s/%s/%d", k.Type, k.Pool, k.Index) }
 
